@@ -27,6 +27,10 @@ type jobHist struct {
 	chk        *server.VCheck
 	viol       []engine.Violation
 	last       string
+	// a source write that lands during a run (op runw)
+	midWrite     server.VOp
+	midWriteDone bool
+	midWriteErr  error
 }
 
 func (jh *jobHist) cfgClass() string {
@@ -333,6 +337,17 @@ func (jh *jobHist) runWith(jb *job, mode string, n int) (res *jobResult, panicke
 			}
 			return nil
 		}
+	case "write":
+		// a source write lands while the run hands its n-th batch to the sink
+		done := false
+		fs.onCall = func(call int) error {
+			if call == n && !done {
+				done = true
+				jh.midWriteErr = jh.h.ApplyWrite(jh.midWrite)
+				jh.midWriteDone = true
+			}
+			return nil
+		}
 	}
 	jh.jb.pipeline.spec().sink = fs
 	panicked = runJob(jh.jb)
@@ -517,6 +532,50 @@ func vReplayJob(task engine.SeqTask) (res engine.SeqResult) {
 				}
 			}
 			_ = before
+		case "runw":
+			// a run during which a source write lands (at the N-th sink call). Equality is only promised for runs
+			// without concurrent writes; the token rule holds regardless, and the next undisturbed run restores equality
+			ran = true
+			pool := model.Pool(0)
+			jh.midWrite = server.VOp{K: "batch", DS: "A", Ents: []server.VEnt{{ID: "e3", C: model.PoolIndex(pool, "v2")}, {ID: "e1", C: model.PoolIndex(pool, "r1")}}}
+			jh.midWriteDone, jh.midWriteErr = false, nil
+			r, panicked := jh.runWith(jh.jb, "write", op.N)
+			if !jh.midWriteDone {
+				// the sink was not called that often: this was a plain run
+				res.Skip, res.Key = true, "skip"
+				return
+			}
+			if jh.midWriteErr != nil {
+				res.HarnessEr = "mid-run write rejected: " + jh.midWriteErr.Error()
+				return
+			}
+			if p.Spec.JobType == "fullsync" && r != nil && r.LastError != "" {
+				jh.failedFull = true
+			}
+			if !last {
+				continue
+			}
+			keyAtEnd = jh.stateKey(names)
+			checks++
+			if panicked != "" {
+				jh.fail("run-panics", "the run panics: "+panicked)
+				break
+			}
+			if r.LastError != "" {
+				jh.fail("clean-run-fails", "a run with a concurrent source write (nothing else injected) fails: "+r.LastError)
+				break
+			}
+			if p.Spec.JobType != "fullsync" {
+				jh.tokenSafety("after a run with a concurrent source write")
+			}
+			if r2, p2 := jh.run("", 0); p2 != "" || r2.LastError != "" {
+				jh.fail("recovery-run-fails", fmt.Sprintf("the clean run after a run with a concurrent write fails: %s %s", p2, r2.LastError))
+			} else {
+				if p.Spec.JobType != "fullsync" {
+					jh.tokenSafety("after the run that follows a run with a concurrent source write")
+				}
+				jh.converged("after a run with a concurrent source write and one clean run")
+			}
 		case "restart":
 			jw.Restart()
 			jb2, err := jw.reloadJob(jh.id)
@@ -579,8 +638,8 @@ func init() {
 	})
 
 	engine.RegisterCheck("C08", func(r *engine.Run) {
-		r.Rule = "SEQ: for every job configuration (DatasetSource / UnionDatasetSource, with and without LatestOnly, incremental / fullsync, batch sizes 1,2,3,default) every sequence up to the stated depth over {source writes (props, refs, deletes, repeated ids), clean run, run with the sink failing at batch index 1..3, run killed at batch boundary 1..2, restart; for the mixed-trigger job also the fullsync trigger clean / failing at batch 1..2}; a history that ends in a source write after earlier runs is followed by one clean run; after every run: token safety (every source change below the persisted token is reflected in the sink), after a successful run sink view = source view and a re-run is a no-op, after a failed/killed run one clean run restores equality. CRASH: real SIGKILL at every durable commit and at the point between sink write and token store during a run"
-		r.Assumptions = []string{"no concurrent source writes during a run (as the property states)", "HTTP and proxy sources/sinks are outside (need a peer)"}
+		r.Rule = "SEQ: for every job configuration (DatasetSource / UnionDatasetSource, with and without LatestOnly, incremental / fullsync, batch sizes 1,2,3,default) every sequence up to the stated depth over {source writes (props, refs, deletes, repeated ids), clean run, run with the sink failing at batch index 1..3, run killed at batch boundary 1..2, a run during which a source write lands at sink call 1..2 (token rule, then convergence after one undisturbed run), restart; for the mixed-trigger job also the fullsync trigger clean / failing at batch 1..2}; a history that ends in a source write after earlier runs is followed by one clean run; after every run: token safety (every source change below the persisted token is reflected in the sink), after a successful run sink view = source view and a re-run is a no-op, after a failed/killed run one clean run restores equality. SCHED: one run (incremental / latest-only / union / fullsync, batch size 1) next to a writer of its source under every interleaving up to the preemption bound: the token rule right after it, equality after one further undisturbed run. CRASH: real SIGKILL at every durable commit and at the point between sink write and token store during a run"
+		r.Assumptions = []string{"equality right after a run is only demanded for runs without concurrent source writes (as the property states)", "HTTP and proxy sources/sinks are outside (need a peer)"}
 		pool := model.Pool(0)
 		pi := func(n string) int { return model.PoolIndex(pool, n) }
 		type cfgT struct {
@@ -621,6 +680,7 @@ func init() {
 				{K: "batch", DS: "A", Ents: []server.VEnt{{ID: "e1", C: pi("v2")}, {ID: "e2", C: pi("r1")}, {ID: "e1", C: pi("dv1")}}},
 				{K: "batch", DS: "A", Ents: []server.VEnt{{ID: "e2", C: pi("v1")}, {ID: "e3", C: pi("v1")}}},
 				{K: "run"}, {K: "runfail", N: 1}, {K: "runfail", N: 2}, {K: "runkill", N: 1}, {K: "restart"},
+				{K: "runw", N: 1}, {K: "runw", N: 2},
 				// one entity rewritten many times in a row: a long run of superseded change-log entries
 				{K: "batch", DS: "A", Ents: []server.VEnt{{ID: "e1", C: pi("v1")}, {ID: "e1", C: pi("v2")}, {ID: "e1", C: pi("v1")}, {ID: "e1", C: pi("v2")}, {ID: "e1", C: pi("v1")},
 					{ID: "e1", C: pi("v2")}, {ID: "e1", C: pi("v1")}, {ID: "e1", C: pi("v2")}, {ID: "e1", C: pi("v1")}, {ID: "e1", C: pi("s")}}},
@@ -643,5 +703,6 @@ func init() {
 			engine.RunSeq(r, engine.SeqSpec{Name: "c08:" + c.name, WorkerArgs: []string{"worker", "job"}, Alphabet: raw, Params: params, Depth: depth, Budget: time.Duration(budget/len(cfgs)+5) * time.Second})
 		}
 		engine.RunCrash(r, "c08-crash", []string{"worker", "crash-job"}, c08CrashBases(r.Quick()), 0)
+		c08Sched(r)
 	})
 }
